@@ -1,5 +1,5 @@
 (** C18 — further theorems (audit follow-up).  Same model and notions as Props/C18.v. *)
-From GH Require Import Base.Prelude Model.Verify Model.Session Proofs.SessionP Proofs.SessionLiveP.
+From GH Require Import Base.Prelude Model.Verify Model.Session Proofs.SessionP Proofs.SessionLiveP Oracle.C05 Oracle.C18.
 
 (** RETURN itself, scheduler-free: from EVERY reachable state of an honest run in which the call
     has not returned - whatever was dispatched to whom, whatever is still in flight - with one
@@ -71,4 +71,61 @@ Example C18_pruned_peers_together :
   GetRangeByHeight 0%Z ex_tv 100 3 (ex_hdr 10) 18 [0; 1] evs = Some (ROk (map ex_hdr [11; 12; 13; 14; 15; 16; 17])).
 Proof. vm_compute. repeat split; reflexivity. Qed.
 
+
+(** the exact-range theorem applies to every log the decidable check [honest_evs_tb] accepts
+    (the k-th answer is a prefix of what a server whose store holds tail_k .. head_k of the chain
+    answers - pruned stores included; the pairs are what the driver "pruned" reads from the real
+    stores at every answer): whatever the chunk size, the peers, the order of dispatches and
+    answers, a call that returns headers returns exactly the chain's from+1 .. to-1 *)
+Theorem C18_exact_range_for_checked_pruned_logs :
+  forall drift tv maxcap per (from : hdr) (to : N) peers (c : N -> hdr) (top : N)
+         (evs : list event) (ths : list (N * N)) (res : list hdr),
+  h_nil from = false -> h_height from + 1 < two64 -> to < two64 -> 1 <= per ->
+  (forall n, n <= top -> h_height (c n) = n) ->
+  honest_evs_tb drift tv maxcap from c top (get_range maxcap per from to peers) evs ths = true ->
+  GetRangeByHeight drift tv maxcap per from to peers evs = Some (ROk res) ->
+  res = map c (seqN (h_height from + 1) (N.to_nat (to - (h_height from + 1)))).
+Proof. exact pruned_logs_exact_range. Qed.
+
+(** the liveness LIMIT, as the model has it: a peer whose answer was empty (a timeout) or an
+    error other than NOT_FOUND is not returned to the session's queue.  Once no peer is idle and
+    no request is in flight (e.g. the sole capable peer timed out once), NO sequence of
+    dispatches and answers makes the call return: it waits until the caller's context ends or
+    the exchange is stopped *)
+Theorem C18_no_peer_left_waits_for_context :
+  forall drift tv maxcap per (from : hdr) (to : N) peers (evs0 evs : list event),
+  let s := run drift tv maxcap from (get_range maxcap per from to peers) evs0 in
+  s_res s = None -> s_idle s = [] -> s_flight s = [] ->
+  ~ In ECtxDone evs -> ~ In EStop evs ->
+  GetRangeByHeight drift tv maxcap per from to peers (evs0 ++ evs) = None.
+Proof. exact stuck_waits. Qed.
+
+(** non-vacuity: one peer holding the whole chain, three chunks; its first answer times out
+    (empty): no idle peer, nothing in flight, all three requests queued, no result *)
+Example C18_sole_peer_timeout_example :
+  let s := run 0%Z ex_tv 100 (ex_hdr 10) (get_range 100 3 (ex_hdr 10) 18 [0])
+               [EDispatch 0 (Req 11 3); ERespond 0 1%Z []] in
+  s_res s = None /\ s_idle s = [] /\ s_flight s = [] /\ length (s_queue s) = 3%nat /\
+  model_obs false s = Some OCtx.
+Proof. vm_compute. repeat split; reflexivity. Qed.
+
+(** the case oracle of the driver "pruned": whenever the model reproduces the observation of a
+    case (agree) the property check accepts it (ok) *)
+Theorem C18_chk18t_sound : forall c, agree18t c = true -> ok18t c = true.
+Proof. exact chk18t_sound. Qed.
+
+(** a chain just below 2^64 (heights 2^64-5 .. 2^64-2, [cno] with offset 2^64-6): two chunks *)
+Example C18_near_max_height_example :
+  let off := two64 - 6 in
+  let ch := map (fun k => Hdr false 1 (off + k) 0%Z (off + k) (off + k - 1) true) [1; 2; 3; 4] in
+  let c := cno off ch in
+  let evs := [EDispatch 0 (Req (off + 2) 2); ERespond 0 1%Z (honest_answer_t c (off + 1) (off + 4) (Req (off + 2) 2));
+              EDispatch 0 (Req (off + 4) 1); ERespond 0 1%Z (honest_answer_t c (off + 1) (off + 4) (Req (off + 4) 1))] in
+  honest_answer_t c (off + 1) (off + 4) (Req (off + 4) 2) = [] /\      (* origin+amount wraps: reset *)
+  GetRangeByHeight 0%Z ex_tv 100 2 (c (off + 1)) (two64 - 1) [0] evs = Some (ROk [c (off + 2); c (off + 3); c (off + 4)]).
+Proof. vm_compute. repeat split; reflexivity. Qed.
+
 Print Assumptions C18_completion_always_reachable.
+Print Assumptions C18_exact_range_for_checked_pruned_logs.
+Print Assumptions C18_no_peer_left_waits_for_context.
+Print Assumptions C18_chk18t_sound.
